@@ -1,4 +1,5 @@
 import TD.C19.Lemmas
+import TD.C19.FilterGen
 
 /-!
 # C19 — plotted curves stay inside their track and wrap consistently (scale mathematics)
@@ -291,10 +292,8 @@ theorem filterIdx_4_7 : filterIdx 4 7 = [0, 2, 4, 5] := by decide +kernel
 pairs; contents arbitrary): it never raises, returns a sub-list of its input (so everything proved about the
 crossing points carries over), of at most `2·4` points, and keeps the first pair.
 
-Full statement NOT proved (hence `_partial`): the same for every `MAX ≥ 1` and every even-length list
-(`length ≤ 2·MAX`, sub-list, first pair kept, no `IndexError`); missing is the general floor-arithmetic argument that the
-loop leaves by `k = MAX−1`.  Lists longer than 7 pairs cannot reach the function from `_retInterpolateWrapPoints`
-(`interp_cross_count_M4`). -/
+This is the concrete special case (kept because `ret_interpolate_points_M4` uses it and it exhibits the selected
+pairs); the full statement for every `MAX ≥ 1` and every even-length list is `filter_keeps_first` below. -/
 theorem filter_keeps_first_partial {α} (l : List α) (he : l.length % 2 = 0) (hn : l.length / 2 ≤ 7) :
     ∃ r, filterCross 4 l = .ok r ∧ r.Sublist l ∧ r.length ≤ 8 ∧ r.take 2 = l.take 2 := by
   by_cases hs : l.length / 2 ≤ 4
@@ -318,6 +317,53 @@ theorem filter_keeps_first_partial {α} (l : List α) (he : l.length % 2 = 0) (h
         omega
 
 example : filterCross 4 (List.range 14) = .ok [0, 1, 4, 5, 8, 9, 10, 11] := by decide +kernel
+
+/-- **`_filterCrossLineList`, general** — for EVERY `MAX_BACKUP_TRACK_CROSSING_LINES ≥ 1` and EVERY even-length list
+(any contents): the call never raises (no `IndexError`), the result is a sub-list of the input with at most `2·MAX`
+points, it begins with the first pair, and a list of at most `MAX` pairs is returned unchanged.
+(The docstring's claim that the LAST pair is kept too is false, see `filterIdx_4_7`.) -/
+theorem filter_keeps_first {α} (M : ℕ) (hM : 1 ≤ M) (l : List α) (he : l.length % 2 = 0) :
+    ∃ r, filterCross M l = .ok r ∧ r.Sublist l ∧ r.length ≤ 2 * M ∧ r.take 2 = l.take 2 ∧
+      (l.length / 2 ≤ M → r = l) := by
+  by_cases hs : l.length / 2 ≤ M
+  · exact ⟨l, filter_short_id M l he hs, List.Sublist.refl l, by omega, rfl, fun _ => rfl⟩
+  · have hn : M < l.length / 2 := by omega
+    obtain ⟨j, hj, hidx, hlast⟩ := filterIdx_eq M (l.length / 2) hM hn
+    set s : ℚ := ((l.length / 2 : ℕ) : ℚ) / M with hsdef
+    have hMq : (0 : ℚ) < M := by exact_mod_cast hM
+    have hs1 : 1 ≤ s := by
+      rw [hsdef, le_div_iff₀ hMq]
+      have : (M : ℚ) < ((l.length / 2 : ℕ) : ℚ) := by exact_mod_cast hn
+      linarith
+    have hs0 : 0 ≤ s := by linarith
+    have hmem : ∀ i ∈ (List.range (j + 1)).map (gsel s), 0 ≤ i ∧ 2 * i.toNat + 1 < l.length := by
+      intro i hi
+      simp only [List.mem_map, List.mem_range] at hi
+      obtain ⟨t, ht, rfl⟩ := hi
+      have h0 := gsel_nonneg hs0 t
+      have h1 : gsel s t ≤ gsel s j := gsel_mono hs0 (by omega)
+      refine ⟨h0, ?_⟩
+      omega
+    refine ⟨[] ++ (((List.range (j + 1)).map (gsel s)).map Int.toNat).flatMap (pairAt l), ?_, ?_, ?_, ?_, fun h => absurd h hs⟩
+    · rw [filterCross_fold M l he hs, hidx, foldlM_getPair l _ [] hmem]
+    · simp only [List.nil_append]
+      have := pairs_sublist l (((List.range (j + 1)).map (gsel s)).map Int.toNat) 0 (fun _ _ => Nat.zero_le _) ?_
+      · simpa using this
+      · rw [List.map_map, List.pairwise_map]
+        refine List.pairwise_lt_range.imp ?_
+        intro a b hab
+        have := gsel_strictMono hs1 hab
+        have := gsel_nonneg hs0 a
+        simp only [Function.comp]; omega
+    · simp only [List.nil_append]
+      have := length_pairs_le l (((List.range (j + 1)).map (gsel s)).map Int.toNat)
+      simp only [List.length_map, List.length_range] at this
+      omega
+    · simp only [List.nil_append, List.range_succ_eq_map, List.map_cons, List.flatMap_cons, gsel_zero, Int.toNat_zero]
+      have h2 : (pairAt l 0).length = 2 := by unfold pairAt; simp; omega
+      rw [List.take_left' h2]; simp [pairAt]
+
+example : filterCross 3 (List.range 16) = .ok [0, 1, 6, 7, 10, 11] := by decide +kernel
 
 /-- **`_retInterpolateWrapPoints` complete, as coded (MAX = 4)**: it never raises for distinct wrap counts and distinct
 frame positions; at most 8 crossing-line points are returned and every returned point lies strictly between the two
